@@ -159,6 +159,30 @@ func VH_c12_fold_right() {
 	zz.Assert(seq.FoldRight(fp.Seq[int](in), z, f).Get() == want, "seq.FoldRight")
 }
 
+// the combining function may look at the lazily evaluated rest of the fold any number of times: peeking at it
+// and then returning it must neither change the value nor re-run the fold of the rest
+func VH_c12_fold_right_tail_demanded_twice() {
+	in := inp()
+	g := ufF2("g")
+	z := zz.Int("z")
+	want := z
+	for i := len(in) - 1; i >= 0; i-- {
+		want = g(in[i], want)
+	}
+	calls := 0
+	f := func(a int, b lazy.Eval[int]) lazy.Eval[int] {
+		calls++
+		peek := b.Get()
+		return b.Map(func(v int) int { return g(a, v) + (peek - v) })
+	}
+	calls = 0
+	zz.Assert(iterator.FoldRight(src(in), z, f).Get() == want && calls == len(in), "iterator.FoldRight: rest of the fold demanded twice")
+	calls = 0
+	zz.Assert(list.FoldRight(lsrc(in), z, f).Get() == want && calls == len(in), "list.FoldRight: rest of the fold demanded twice")
+	calls = 0
+	zz.Assert(seq.FoldRight(fp.Seq[int](in), z, f).Get() == want && calls == len(in), "seq.FoldRight: rest of the fold demanded twice")
+}
+
 func VH_c12_groupby_gomap_goset() {
 	zz.Config("mapperm", 0)
 	in := inp()
